@@ -21,7 +21,13 @@ Definition instr_eq (a b : instr) : bool :=
 Fixpoint prog_eq (a b : list instr) : bool :=
   match a, b with [], [] => true | x :: a', y :: b' => instr_eq x y && prog_eq a' b' | _, _ => false end.
 
-(* 1: assembled program differs, 2: inferred sizes differ, 3: the model rejects the source, 4: inferred sizes do not fit *)
+(* the condition under which the lock-step theorems speak about a section: jumps are written with labels *)
+Definition plain_okb (i : instr) : bool := match i with IJ _ | IJz _ _ => false | _ => true end.
+Definition src_okb (src : source) : bool :=
+  forallb (fun it => match it with IOp _ (SPlain i) => plain_okb i | _ => true end) src.
+
+(* 1: assembled program differs, 2: inferred sizes differ, 3: the model rejects the source, 4: inferred sizes do not fit,
+   5: the section is outside the premise of the lock-step theorems *)
 Definition check_asm (c : src_cfg) (observed : list instr) (sz : nat * nat * nat * nat) : list nat :=
   let '(sync, rsize, src) := c in
   match assemble sync src with
@@ -30,7 +36,8 @@ Definition check_asm (c : src_cfg) (observed : list instr) (sz : nat * nat * nat
       (if prog_eq p observed then [] else [1]) ++
       (let z := infer p in let '(r, n, m, o) := sz in
        if Nat.eqb (sz_R z) r && Nat.eqb (sz_N z) n && Nat.eqb (sz_M z) m && Nat.eqb (sz_O z) o then [] else [2]) ++
-      (if fits (infer p) p then [] else [4])
+      (if fits (infer p) p then [] else [4]) ++
+      (if src_okb src then [] else [5])
   end.
 
 (* the whole machine run from the sources' own meaning; compared with the externally visible part of
